@@ -573,3 +573,43 @@ def run(ctx):
     _run_main_rest2(ctx)
     corr_rest2(ctx, parts=('peaks',))
     ctx.flush()
+
+
+# ---- round 9 (hx_r9b): reduced-precision floating records (float16 / float32) whose neighbouring samples underflow when multiplied ---------
+def extras_lowprec(ctx):
+    """the property quantifies over every series: a float16 / float32 ndarray holds real numbers like any other container, and the zero
+    crossings must be those of the float64 image of the same numbers (the pinned get_zero_crossings_array_indices converts to float64 first).
+    NOT demanded: get_switched_peak_array_indices (the pinned tree multiplies two peak values in the dtype of the record: see NOTES hx_r9b)."""
+    from eqsig.fns import peaks_and_crossings as pc
+    rng = ctx.rng
+    for it in range(6 if ctx.tier == 'quick' else 60):
+        n = rng.choice([5, 9, 16, 33])
+        v = gen.int_record(rng, n, -3, 3) if it % 2 == 0 else np.asarray(gen.plateau_record(rng, n), dtype=float)
+        if it % 3 == 0:
+            v = v * (-1.0) ** np.arange(n) + (v == 0) * (it % 2)               # sign change at nearly every step, with / without exact zeros
+        tolk = rng.choice([0.5, 1.0, 1.5])
+        for lab, lo, f64 in gen.low_precision_tiny(v):
+            ctx.hist('lowprec/' + lab)
+            snap = lo.copy()
+            unit = float(np.min(np.abs(f64[f64 != 0]))) if np.any(f64 != 0) else 1.0       # the tiny unit 2^k: tol in the units of the record
+            calls = [('zero crossings', {}), ('zero crossings/keep', {'keep_adj_zeros': True}), ('zero crossings/tol=0.0', {'tol': 0.0}),
+                     ('zero crossings/tol', {'tol': tolk * unit}), ('zero crossings/keep/tol', {'keep_adj_zeros': True, 'tol': tolk * unit})]
+            for nm, kw in calls:
+                ref, g = pc.get_zero_crossings_array_indices(f64, **kw), call_impl(pc.get_zero_crossings_array_indices, lo, **kw)
+                inputs = {'values': lo, 'dtype': str(lo.dtype), 'container': lab, **kw}
+                ctx.oracle('C12 the zero crossings of a float16 / float32 ndarray are those of the same numbers held in float64 (%s)' % nm,
+                           g[0] == 'ok' and _same_idx(g[1], ref), inputs, detail={'got': g[1], 'float64 ndarray': ref})
+                if 'tol' not in kw or kw['tol'] == 0.0:
+                    spec = np_spec_zc(f64, bool(kw.get('keep_adj_zeros', False)))
+                    ctx.oracle('C12.a zero-crossing indices: 0, every exact zero (first of a run unless keep_adj_zeros), first sample after each strict '
+                               'sign change (float16 / float32 ndarray)', g[0] == 'ok' and _same_idx(g[1], spec), inputs, detail={'got': g[1], 'spec': spec})
+            ctx.oracle('C12 input array unchanged (values and dtype)', lo.dtype == snap.dtype and np.array_equal(lo, snap), {'values': snap, 'container': lab})
+
+
+_run_main_lp = run
+
+
+def run(ctx):
+    _run_main_lp(ctx)
+    extras_lowprec(ctx)
+    ctx.flush()
